@@ -42,6 +42,10 @@ pub struct Scn {
     /// stays alive - also while everything it receives is redundant.
     #[serde(default)]
     pub retime: Option<(u64, u64)>,
+    /// receiver wall clock minus the sender's, seconds (the FDT packets carry the sender current time: a constant skew of
+    /// minutes, hours or years changes nothing)
+    #[serde(default)]
+    pub clock_offset_s: i64,
 }
 
 pub struct C02;
@@ -209,6 +213,7 @@ pub fn gen(idx: u64, tier: Tier, rng: &mut Rng) -> Scn {
                 max_n: if tier == Tier::Quick { 12 } else { 16 },
             },
             retime: None,
+            clock_offset_s: 0,
         };
     }
     let special = rng.below(100);
@@ -225,7 +230,7 @@ pub fn gen(idx: u64, tier: Tier, rng: &mut Rng) -> Scn {
             Loss::Threshold { delta: 0, pref: 0, p_dup: 0.0, drop_first_fdt: rng.chance(0.5) }
         };
         let retime = if rng.chance(0.5) { Some(*rng.pick(&[(500u64, 1000u64), (100, 200), (2000, 1000)])) } else { None };
-        return Scn { sender, recv, loss, retime };
+        return Scn { sender, recv, loss, retime, clock_offset_s: 0 };
     }
     recv.md5_check = rng.chance(0.8);
     let loss = if rng.chance(0.5) {
@@ -244,7 +249,8 @@ pub fn gen(idx: u64, tier: Tier, rng: &mut Rng) -> Scn {
         }
     };
     let retime = if rng.chance(0.2) { Some(*rng.pick(&[(8u64, 1000u64), (50, 5000), (3, 100)])) } else { None };
-    Scn { sender, recv, loss, retime }
+    let clock_offset_s = if sender.spec.fdt_inband_sct && rng.chance(0.15) { *rng.pick(&[2400i64, -2400, 18_000, -86_400, 31_536_000, -31_536_000]) } else { 0 };
+    Scn { sender, recv, loss, retime, clock_offset_s }
 }
 
 /// Evaluate one delivered multiset (indices into the trace, order preserved).
@@ -260,7 +266,10 @@ fn evaluate(scn: &Scn, ctx: &Ctx, sess: &Session, delivered: &[usize], what: &st
         recv.object_timeout_ms = Some(to_ms);
         ctx.borrow_mut().count_fault("cleanup-with-object-timeout");
     }
-    let mut r = receive(&recv, ctx, &ep, &dl, Default::default(), "r0", if scn.retime.is_some() { 1 } else { 0 }, 0);
+    if scn.clock_offset_s != 0 {
+        ctx.borrow_mut().count_fault("clock-skew");
+    }
+    let mut r = receive(&recv, ctx, &ep, &dl, Default::default(), "r0", if scn.retime.is_some() { 1 } else { 0 }, scn.clock_offset_s * 1_000_000);
     let mut outcome = Vec::new();
     for obj in &sess.objs {
         let (exact, wrong, _failed) = completes_exact(&r.monitor, obj);
